@@ -214,7 +214,11 @@ end Expr
 /-- integer arithmetic of the CAS: exact on two Python ints, wrapping `int64` otherwise.
 `strict = true` turns a wrap that changes the value into the error `"ovf"`. -/
 def arith (strict : Bool) (f : Int → Int → Int) (a b : PInt) : R PInt :=
-  if !a.np && !b.np then pure ⟨f a.val b.val, false⟩
+  if !a.np && !b.np then
+    -- `_checked_integer`: exact Python ints; a result that does not fit a command array raises `OverflowError`
+    -- (reported as `"ovf"`: `simplify_stack` then falls back to `reduce_stack`)
+    let r := f a.val b.val
+    if inInt64 r then pure ⟨r, false⟩ else throw "ovf"
   else if !(inInt64 a.val && inInt64 b.val) then throw "OverflowError"
   else
     let r := f a.val b.val
@@ -233,9 +237,12 @@ def powMod64 : Nat → Nat → Nat → Nat → Nat
 def intPow (strict : Bool) (a b : PInt) : R PInt :=
   let e := b.val.toNat
   if !a.np && !b.np then
-    -- exact Python big-int power; refuse results above ~2^20 bits (Python: MemoryError / hang)
-    if a.val.natAbs ≥ 2 && e * a.val.natAbs.log2 > 1048576 then throw "MemoryError"
-    else pure ⟨a.val ^ e, false⟩
+    -- `_checked_integer_power`: `(bit_length(|a|) - 1) * e > 63` is decided without computing the power
+    -- (`bit_length(n) - 1 = log2 n` for `n ≥ 1`; for `a = 0` neither product exceeds 63)
+    if a.val.natAbs.log2 * e > 63 then throw "ovf"
+    else
+      let r := a.val ^ e
+      if inInt64 r then pure ⟨r, false⟩ else throw "ovf"
   else if !(inInt64 a.val && inInt64 b.val) then throw "OverflowError"
   else
     let w := wrap64 (Int.ofNat (powMod64 64 (a.val % two64).toNat e 1))
